@@ -535,9 +535,11 @@ func getTypeName(ident ir.LocalIdent) string {
 	if ident.IsUnnamed() {
 		return strconv.FormatInt(ident.LocalID, 10)
 	}
-	if x, err := strconv.ParseInt(ident.LocalName, 10, 64); err == nil {
-		// Print LocalName with quotes if it is a number; e.g. %"42".
-		return fmt.Sprintf(`"%d"`, x)
+	if isDecimal(ident.LocalName) {
+		// Keep the quotes of a type name consisting only of digits, to
+		// distinguish the type name %"42" from the type ID %42; the digits are
+		// kept verbatim (e.g. %"007").
+		return `"` + ident.LocalName + `"`
 	}
 	return ident.LocalName
 }
